@@ -198,6 +198,7 @@ func drun(args []string) error {
 			var s struct {
 				Sched []int `json:"sched"`
 				Lens  []int `json:"lens"`
+				Share []int `json:"share"`
 			}
 			if err := json.Unmarshal(line, &s); err != nil {
 				return err
@@ -206,28 +207,57 @@ func drun(args []string) error {
 			wls := make([]wl.Workload, k)
 			bufs := make([]*bytes.Buffer, k)
 			writers := make([]*mcap.Writer, k)
-			next := make([]int, k)
+			next := make([]int, k) // 0: not created yet; j+1: j calls made
 			solo := make([]string, k)
 			ok := true
+			// instances created from one and the same *WriterOptions value (as the model's optsOf says) have the same
+			// configuration: that of the first of them; each solo run uses an options value of its own
+			optsObj := map[int]*mcap.WriterOptions{}
+			first := map[int]int{}
+			shared := false
 			for i := 0; i < k; i++ {
 				wls[i] = abstractWorkload(s.Lens[i], g, fmt.Sprintf("inst%d-%d", li, i))
+				o := i + 1
+				if i < len(s.Share) {
+					o = s.Share[i]
+				}
+				if j, seen := first[o]; seen {
+					wls[i].Cfg = wls[j].Cfg
+					shared = true
+				} else {
+					first[o] = i
+					optsObj[o] = run.Options(wls[i].Cfg)
+				}
 				solo[i] = digest(writeAll(wls[i]))
 				bufs[i] = &bytes.Buffer{}
-				writers[i], err = mcap.NewWriter(bufs[i], run.Options(wls[i].Cfg))
-				if err != nil {
-					ok = false
-				}
 			}
 			var lastDone []byte
 			for _, inst := range s.Sched {
 				i := inst - 1
-				if !ok || i >= k || next[i] >= len(wls[i].Calls) {
+				if !ok || i >= k || next[i] > len(wls[i].Calls) {
 					ok = false
 					break
 				}
-				run.Apply(writers[i], wls[i].Calls[next[i]], wls[i].Cfg.CRC)
+				if next[i] == 0 { // the instance's first step is its creation
+					o := i + 1
+					if i < len(s.Share) {
+						o = s.Share[i]
+					}
+					writers[i], err = mcap.NewWriter(bufs[i], optsObj[o])
+					if err != nil {
+						ok = false
+						break
+					}
+					next[i] = 1
+					continue
+				}
+				if next[i]-1 >= len(wls[i].Calls) {
+					ok = false
+					break
+				}
+				run.Apply(writers[i], wls[i].Calls[next[i]-1], wls[i].Cfg.CRC)
 				next[i]++
-				if next[i] == len(wls[i].Calls) {
+				if next[i]-1 == len(wls[i].Calls) {
 					lastDone = bufs[i].Bytes()
 				}
 				if lastDone != nil { // a reader instance used between writer steps
@@ -240,7 +270,11 @@ func drun(args []string) error {
 					same = false
 				}
 			}
-			tr.Add(wl.Ev{"ev": "Det", "kind": "interleaving", "id": fmt.Sprintf("sched%d", li), "runs": k, "same": same, "steps": len(s.Sched)})
+			kind := "interleaving"
+			if shared {
+				kind = "interleaving-shared-options"
+			}
+			tr.Add(wl.Ev{"ev": "Det", "kind": kind, "id": fmt.Sprintf("sched%d", li), "runs": k, "same": same, "steps": len(s.Sched)})
 		}
 	}
 	// (c) 16 goroutines under the race detector
